@@ -516,6 +516,18 @@ def _fix_multiline_opening_tag_with_closing(text: str) -> str:
 
         if not is_tag_start:
             match = _multiline_closing_pattern.search(line)
+            if match and any(
+                opener in line[: match.start()]
+                for opener in (
+                    SINGLE_JINJA_TAG.open_delim,
+                    SINGLE_JINJA_COMMENT.open_delim,
+                    SINGLE_JINJA_VAR.open_delim,
+                    SINGLE_HTML_COMMENT.open_delim,
+                )
+            ):
+                # The opening tag starts on this line (a pair in the middle of prose): it does
+                # not span lines, so there is nothing to fix.
+                match = None
             if match:
                 # Find which named group matched and split at the closing tag
                 for group_name in ["closing_tag", "closing_comment", "closing_var", "closing_html"]:
